@@ -1,6 +1,6 @@
 (* C20 — property theorems only.  Statements are full; proofs are [exact lemma]. *)
 From Coq Require Import List Bool Permutation.
-From LE Require Import Conc.RWMutex Conc.Skeleton Conc.Progress Conc.SharedAppend Conc.SnapshotRead Gen.Skeletons Conc.Instances.
+From LE Require Import Conc.RWMutex Conc.Skeleton Conc.Progress Conc.SharedAppend Conc.SnapshotRead Conc.Atomic Gen.Skeletons Conc.Instances.
 Import ListNotations.
 
 (* Progress for safe skeletons under the writer-preferring RWMutex: if every program is balanced on every path, never
@@ -78,6 +78,13 @@ Theorem C20_separate_reads_torn_refuted :
     read_separate s0 s1 s1 id = Some torn /\
     forall s, In s (history s0 ops) -> read_snapshot s id <> Some torn.
 Proof. exact separate_reads_torn_refuted. Qed.
+
+(* every method of a lock-owning type of the listed files (block cache, certificate pool, emitter, subscription, staged
+   store, tx pool, sender list) enters its own lock at most once per call: check and mutation share one critical section,
+   so each method is one atomic step for the other goroutines (no check-then-act across two sections) *)
+Theorem C20_operations_are_single_critical_sections :
+  forallb (fun x => single_section (snd (fst x)) (snd x)) atomic_ops = true.
+Proof. exact atomic_ops_single_section. Qed.
 
 (* the unsafe patterns really are stuck / lossy: none of the premises can be dropped *)
 Theorem C20_nested_rlock_refuted : exists c, reachable (init [last_unsafe; push_prog]) c /\ stuck c.
